@@ -2889,7 +2889,8 @@ template< size_t L>
 {
    if ((pos >= mLength) || (count == 0))
       return std::string();
-   if ((count == std::string::npos) || (pos + count >= mLength))
+   // count can be max(64bit), so we cannot calc pos + count
+   if (count >= mLength - pos)
       count = mLength - pos;
    return std::string( &mString[ pos], count);
 } // FixedString< L>::substr
@@ -2900,7 +2901,8 @@ template< size_t L>
 {
    if ((pos >= mLength) || (dest == nullptr))
       return 0;
-   if (pos + count >= mLength)
+   // count can be max(64bit), so we cannot calc pos + count
+   if (count >= mLength - pos)
       count = mLength - pos;
    std::memcpy( dest, &mString[ pos], count);
    return count;
